@@ -99,9 +99,18 @@ def r16a(ctx, repo, T):
         for stmt, a in sites:
             n += 1
             obj = ast.unparse(a.value)
+            if isinstance(a.value, ast.Name):
+                # a local alias of a mapping entry: judge the refresh against the entry it stands for
+                binds = [s_.value for s_ in own_nodes(fi.node) if isinstance(s_, ast.Assign) and any(astq.is_name(tg, a.value.id) for tg in s_.targets)]
+                if len(binds) == 1 and isinstance(binds[0], (ast.Subscript, ast.Attribute)):
+                    obj_alias = ast.unparse(binds[0])
+                else:
+                    obj_alias = None
+            else:
+                obj_alias = None
             ok_ids = []
             for st, robj, sweep in refresh:
-                if sweep is not None and obj.startswith(sweep[1]):
+                if sweep is not None and (obj.startswith(sweep[1]) or (obj_alias or "").startswith(sweep[1])):
                     ok_ids += cfg.ids(sweep[0])
                 elif robj == obj:
                     ok_ids += cfg.ids(st)
